@@ -42,12 +42,20 @@ def _t_fac2(x, y=5, *, z=None): return ('result', ['fac2', x, y, z], ('fac2', (x
 def _t_slow(v, ticks=0): return ('result', ['slow', v], ('slow', (v, ticks), {}))
 def _t_whoami(): return ('ctx-only', None, ('whoami', (), {}))
 def _t_ctxp(a=0): return ('ctx-result', a, ('ctxp', (a,), {}))
+def _t_slowfail(v, ticks=0, how='rpc'):
+    if how == 'rpc':
+        return ('error', (TYPED_CODE, TYPED_MESSAGE, v), ('slowfail', (v, ticks, how), {}))
+    return ('exception', ('RuntimeError', v), ('slowfail', (v, ticks, how), {}))
+
+
+def _t_byid(id, extra=0): return ('result', ['byid', id, extra], ('byid', (id, extra), {}))
+def _t_wrapped(a, b=0): return ('result', ['wrapped', a, b], ('wrapped', (a, b), {}))
 def _t_vm(a, b=0): return ('result', ['vm', a, b], ('view.vm', (a, b), {}))
 
 
 TWINS = {
     'ok': _t_ok, 'noargs': _t_noargs, 'echo': _t_echo, 'kwonly': _t_kwonly, 'rpcerr': _t_rpcerr,
-    'typed': _t_typed, 'whoami': _t_whoami, 'ctxp': _t_ctxp, 'slow': _t_slow, 'fac1': _t_fac1, 'fac2': _t_fac2, 'boom': _t_boom, 'ctxm': _t_ctxm, 'view.vm': _t_vm,
+    'typed': _t_typed, 'slowfail': _t_slowfail, 'byid': _t_byid, 'wrapped': _t_wrapped, 'whoami': _t_whoami, 'ctxp': _t_ctxp, 'slow': _t_slow, 'fac1': _t_fac1, 'fac2': _t_fac2, 'boom': _t_boom, 'ctxm': _t_ctxm, 'view.vm': _t_vm,
 }
 
 
